@@ -167,7 +167,7 @@ class SensitiveWordAnonymizer(object):
             words = [
                 (
                     w
-                    if w in self.conflicting_words
+                    if w.lower() in self.conflicting_words
                     else self.sens_regex.sub(self._lookup_anon_word, w)
                 )
                 for w in words
